@@ -748,3 +748,28 @@ Proof.
   - rewrite tree_dispatch_ok, Ei, found_at_flag by auto. reflexivity.
   - destruct handled; discriminate.
 Qed.
+
+(* every step of every history refines the flat map, return values included *)
+Lemma refinement_step ops o :
+  exists t t' b, run ops = Ok t /\ step t o = Ok (t', b) /\ b = snd (s_step (s_run ops) o) /\
+    forall q, amap t' q = s_lookup (fst (s_step (s_run ops) o)) q.
+Proof.
+  destruct (run_refines ops) as (t & Er & R).
+  destruct (step_refines t _ o R) as (t' & b & Es & Eb & _ & A). exists t, t', b. auto.
+Qed.
+
+(* refutation of the literal error clause: nothing registered, call to /nope *)
+Definition nope : path := [[110; 111; 112; 101]%N].
+
+Lemma error_refuted :
+  ~ (forall ops p accepts,
+       exists t invoked out, run ops = Ok t /\ tree_dispatch t p accepts = Ok (invoked, out) /\
+         (is_handled out = false -> s_error (s_run ops) p out)).
+Proof.
+  intros H. destruct (H [] nope (fun _ => false)) as (t & inv & out & Er & Ed & He).
+  vm_compute in Er. inversion Er; subst t. vm_compute in Ed. inversion Ed; subst.
+  destruct (He eq_refl) as [[K _] | [_ E]]; [|discriminate].
+  destruct K as [[q Hq] | (q1 & q2 & h & _ & Hq)].
+  - apply Hq. reflexivity.
+  - cbv in Hq. discriminate.
+Qed.
